@@ -96,6 +96,49 @@ func TestConcurrentSend(t *testing.T) {
 		}
 		fmt.Fprintf(fo, "CS %d a_ok=%d b_ok=%d a_has_b=%d\n", k, aOK, bOK, aHasB)
 	}
+	// a blocked face: its send queue fills up and SendPacket drops ("Dropped packet due to congestion") instead of blocking the
+	// forwarding thread that calls it; once the write completes the queued packets go out in order, each intact
+	ta.Reset()
+	qs := core.GetConfig().Faces.QueueSize
+	var queued [][]byte
+	for i := 0; i < qs+8; i++ {
+		w := mkData(r, 100+r.Intn(300))
+		queued = append(queued, w)
+		done := make(chan struct{})
+		go func() {
+			la.SendPacket(dispatch.OutPkt{Pkt: &defn.Pkt{Raw: w, L3: &spec.Packet{Data: &spec.Data{}}}})
+			close(done)
+		}()
+		select {
+		case <-done:
+		case <-time.After(2 * time.Second):
+			fmt.Fprintf(fo, "QF blocked-at=%d\n", i)
+			return
+		}
+		if i == 0 {
+			<-ta.Entered
+		}
+	}
+	go func() { // let everything through
+		for {
+			select {
+			case ta.Stall <- struct{}{}:
+			case <-ta.Entered:
+			case <-time.After(300 * time.Millisecond):
+				return
+			}
+		}
+	}()
+	time.Sleep(400 * time.Millisecond)
+	intact, inOrder := 0, 1
+	for i, f := range ta.Frames {
+		if i < len(queued) && bytes.Equal(lpFragmentOf(f), queued[i]) {
+			intact++
+		} else {
+			inOrder = 0
+		}
+	}
+	fmt.Fprintf(fo, "QF offered=%d queue=%d written=%d intact=%d in_order=%d\n", len(queued), qs, len(ta.Frames), intact, inOrder)
 }
 
 func TestTcpLifetime(t *testing.T) {
